@@ -38,6 +38,9 @@ fn concretise(c: &Value, rng: &mut Rng) -> Opts {
 			"nonprintable-at" => Some("a@b".to_string()),
 			"nonascii" => Some("Br\u{e9}sil".to_string()),
 			"empty" => Some(String::new()),
+			"padded" => Some("  padded name  ".to_string()),
+			"nbsp-padded" => Some("\u{a0}name\u{a0}".to_string()),
+			"tab-newline-padded" => Some("\tname\n".to_string()),
 			"utf8" => Some(format!("n\u{e4}me {}", random_text("utf8", rng, 6).replace('\0', "x"))),
 			t if t.starts_with("long-nonascii-") => Some(long_bad(t)),
 			t if t.starts_with("long-printable-") => Some("Ab".repeat(t["long-printable-".len()..].parse::<usize>().unwrap_or(1)).chars().take(t["long-printable-".len()..].parse::<usize>().unwrap_or(1)).collect()),
@@ -126,8 +129,8 @@ pub fn run_cases(cases_path: &str, out_path: &str, bin: &str, workdir: &str) {
 		let algs = ["$default", "ed25519", "ecdsa-p256", "ecdsa-p384", "rsa", "ecdsa-p521"];
 		let sans = ["dns", "ip4", "ip6", "nonascii", "dns-trailing-dot", "ip4-mapped"];
 		let countries = ["$default", "printable-all", "printable-question", "nonprintable-gt", "nonprintable-at", "nonascii", "empty"];
-		let cns = ["$default", "utf8", "empty", "printable-question"];
-		let names = [["$default", "$default"], ["leaf", "ca"], ["www.example.org", "example.org.ca"], ["site.leaf", "site.ca"], ["with space", "root ca"], ["a.b.c", "a.b.d"]];
+		let cns = ["$default", "utf8", "empty", "printable-question", "padded", "nbsp-padded", "tab-newline-padded"];
+		let names = [["$default", "$default"], ["leaf", "ca"], ["www.example.org", "example.org.ca"], ["site.leaf", "site.ca"], ["with space", "root ca"], ["a.b.c", "a.b.d"], ["Gateway", "gateway"]];
 		let dirs = ["existing", "missing", "nested", "rerun-longer-first"];
 		for _ in 0..2500 {
 			let ns: Vec<&str> = (0..r.below(5)).map(|_| if r.chance(1, 12) { "nonascii" } else { *r.pick(&sans[..3]) }).collect();
